@@ -666,7 +666,7 @@ var stringSeeds = map[string][]string{
 	"AsLocation": {"1..10", "complement(join(1..5,7..9))", "<1..>5", "1.5", "3^4", "order(1,3..4,complement(8..9))", "join(complement(1..2),4)", "42", "complement(order(1..2,5..6))"},
 	"AsLocator":  {"^..$", "CDS/gene=A@^-10..$", "1..10", "3", "@^..$", "gene@^..^+30", "$-20..$", "source", "10..1@^+1..$-1", "CDS/product=prot.*/gene"},
 	"AsModifier": {"^..$", "^-10..^+5", "$-3..$", "^+1..$-1", "^", "$", "^-5", "$+5", "^..^", "$..$"},
-	"Selector":   {"CDS", "CDS/gene=A/product", "/note=x.*", "gene/locus_tag", "/", "source/organism=Esch.*"},
+	"Selector":   {"CDS", "CDS/gene=A/product", "/note=x.*", "gene/locus_tag", "/", "source/organism=Esch.*", "source/mol_type=\\/", "CDS/note=a\\/b/gene", "/note=[", "CDS/gene=(", "a/b=c/d=e/f"},
 	"AsDate":     {"11-OCT-2018", "29-FEB-2000", "01-Jan-1999", "31-12-2020", "31-APR-2021", "29-FEB-2019", "00-JAN-2020", "32-DEC-1999", "31-JUN-2020"},
 	"AsMolecule": {"DNA", "RNA", "AA", "ss-DNA", "ds-DNA"},
 	"AsTopology": {"linear", "circular"},
@@ -729,7 +729,7 @@ func mutateString(r *core.RNG, s string) string {
 			b[i] ^= byte([]int{1, 2, 4, 8, 16, 32, 64, 128}[r.Intn(8)])
 		case 2:
 			i := r.Intn(len(b) + 1)
-			ins := []string{"(", ")", "..", "^", "$", "@", "/", "=", ",", "-", "+", "<", ">", ".", "9999999999999999999999", "complement(", "join(", "\n", " ", "\"", "[", "*"}[r.Intn(22)]
+			ins := []string{"(", ")", "..", "^", "$", "@", "/", "=", ",", "-", "+", "<", ">", ".", "9999999999999999999999", "complement(", "join(", "\n", " ", "\"", "[", "*", "\\", "\\/", "\\\\", "|", ":", "\t", "\x00", "%", "order(", "))", "((", "^^", "$$", "..", "@@", "//"}[r.Intn(38)]
 			b = append(append(append([]byte(nil), b[:i]...), ins...), b[i:]...)
 		case 3:
 			i := r.Intn(len(b))
@@ -744,6 +744,20 @@ func mutateString(r *core.RNG, s string) string {
 			i := r.Intn(len(b))
 			b[i] = byte(r.Intn(256))
 		}
+	}
+	return string(b)
+}
+
+// grammarNoise is a short string over the characters that mean something to
+// the interpreters: shapes (an escape at the very start of a segment, an
+// operator with nothing on one side) that a mutation of a valid string seldom
+// reaches.
+func grammarNoise(r *core.RNG) string {
+	const alphabet = "\\\\\\//==@@^^$$..,,()<>-+*[ a1"
+	n := r.Range(1, 10)
+	b := make([]byte, n)
+	for i := range b {
+		b[i] = alphabet[r.Intn(len(alphabet))]
 	}
 	return string(b)
 }
@@ -913,6 +927,12 @@ func allocatedBy(f func()) uint64 {
 func (x *c07Run) runScaling(sc *c07Scenario) {
 	core.Current, core.CurrentSig = sc, "scaling"
 	core.Tick()
+	if _, ok := stringShapes[sc.Shape]; ok {
+		x.res.Probes["scaling_cases"]++
+		x.key("scaling|" + sc.Shape)
+		x.runTimeScaling(sc)
+		return
+	}
 	small, large := scaledStream(sc.Shape, sc.N), scaledStream(sc.Shape, 4*sc.N)
 	var r1, r2 scanResult
 	processBoundary()
@@ -950,17 +970,17 @@ func threadCPU() time.Duration {
 	return time.Duration(ts.Nano())
 }
 
-// minScanTime is the least processor time of reps scans of data, measured on
+// minWorkTime is the least processor time of reps executions of work, measured on
 // a goroutine locked to its thread: the minimum discards what cache and
 // memory contention add to a measurement.
-func minScanTime(data []byte, reps int) time.Duration {
+func minWorkTime(work func(), reps int) time.Duration {
 	runtime.LockOSThread()
 	defer runtime.UnlockOSThread()
 	best := time.Duration(1 << 62)
 	for i := 0; i < reps; i++ {
 		core.Tick()
 		t0 := threadCPU()
-		scanAll(data, simpipe.Spec{CutAt: -1}, 0)
+		work()
 		if d := threadCPU() - t0; d < best {
 			best = d
 		}
@@ -981,12 +1001,29 @@ func minScanTime(data []byte, reps int) time.Duration {
 // again before reporting; times never enter the event log, the state keys or
 // the digests.
 func (x *c07Run) runTimeScaling(sc *c07Scenario) {
-	small, large := scaledStream(sc.Shape, 4*sc.N), scaledStream(sc.Shape, 16*sc.N)
+	var small, large []byte
+	work := func(data []byte) { scanAll(data, simpipe.Spec{CutAt: -1}, 0) }
+	if fn, ok := stringShapes[sc.Shape]; ok {
+		// a string interpreter instead of the scanner; the strings are kept
+		// shorter because what they are checked for may well be cubic
+		small, large = []byte(scaledString(sc.Shape, sc.N/2)), []byte(scaledString(sc.Shape, 2*sc.N))
+		work = func(data []byte) { callString(fn, string(data)) }
+	} else {
+		small, large = scaledStream(sc.Shape, 4*sc.N), scaledStream(sc.Shape, 16*sc.N)
+	}
 	processBoundary()
 	x.res.Probes["time_scaling_cases"]++
 	x.res.Evaluations += 2
 	verdict := func(reps int) (bool, time.Duration, time.Duration) {
-		t1, t2 := minScanTime(small, reps), minScanTime(large, reps)
+		t1 := minWorkTime(func() { work(small) }, reps)
+		t2 := minWorkTime(func() { work(large) }, 1)
+		if t2 < 2*time.Second && reps > 1 {
+			// cheap enough to repeat; an expensive measurement is already far
+			// from anything noise can produce
+			if t := minWorkTime(func() { work(large) }, reps-1); t < t2 {
+				t2 = t
+			}
+		}
 		return t2 > 10*t1 && t2 > 60*time.Millisecond, t1, t2
 	}
 	bad, t1, t2 := verdict(3)
@@ -996,7 +1033,55 @@ func (x *c07Run) runTimeScaling(sc *c07Scenario) {
 	if bad, t1, t2 = verdict(5); !bad {
 		return
 	}
-	x.violate(sc, "superlinear-time", sc.Shape, fmt.Sprintf("%s: scanning %d units (%d bytes) takes %v, %d units (%d bytes) takes %v (processor time of the scanning thread, minimum of 5 scans each, measured twice): x%.1f for x%.1f input", sc.Shape, 4*sc.N, len(small), t1, 16*sc.N, len(large), t2, float64(t2)/float64(t1+1), float64(len(large))/float64(len(small))))
+	x.violate(sc, "superlinear-time", sc.Shape, fmt.Sprintf("%s: %d bytes take %v, %d bytes take %v (processor time of the working thread, minimum of repeated executions, measured twice): x%.1f for x%.1f input", sc.Shape, len(small), t1, len(large), t2, float64(t2)/float64(t1+1), float64(len(large))/float64(len(small))))
+}
+
+// stringShapes are the scaling shapes that exercise a string interpreter
+// (value: the interpreter) instead of the stream scanner.
+var stringShapes = map[string]string{
+	"str-join-flat": "AsLocation", "str-join-nested": "AsLocation", "str-complement-nested": "AsLocation", "str-order-flat": "AsLocation",
+	"str-selector-slashes": "Selector", "str-selector-segments": "Selector", "str-locator-segments": "AsLocator", "str-open-parens": "AsLocation",
+}
+
+var stringShapeNames = []string{"str-join-flat", "str-join-nested", "str-complement-nested", "str-order-flat", "str-selector-slashes", "str-selector-segments", "str-locator-segments", "str-open-parens"}
+
+// scaledString builds an interpreter string with n units of one shape.
+func scaledString(shape string, n int) string {
+	var b strings.Builder
+	switch shape {
+	case "str-join-flat", "str-order-flat":
+		b.WriteString(map[string]string{"str-join-flat": "join(", "str-order-flat": "order("}[shape])
+		for i := 0; i < n; i++ {
+			if i > 0 {
+				b.WriteByte(',')
+			}
+			fmt.Fprintf(&b, "%d..%d", 3*i+1, 3*i+2)
+		}
+		b.WriteByte(')')
+	case "str-join-nested":
+		b.WriteString(strings.Repeat("join(", n))
+		b.WriteString("1..2")
+		for i := 0; i < n; i++ {
+			fmt.Fprintf(&b, ",%d..%d)", 3*i+4, 3*i+5)
+		}
+	case "str-complement-nested":
+		b.WriteString(strings.Repeat("complement(", n))
+		b.WriteString("1..2")
+		b.WriteString(strings.Repeat(")", n))
+	case "str-open-parens":
+		b.WriteString(strings.Repeat("join(", n))
+	case "str-selector-slashes":
+		b.WriteString(strings.Repeat("/", n))
+	case "str-selector-segments", "str-locator-segments":
+		b.WriteString("CDS")
+		for i := 0; i < n; i++ {
+			fmt.Fprintf(&b, "/q%d=v%d", i, i)
+		}
+		if shape == "str-locator-segments" {
+			b.WriteString("@^..$")
+		}
+	}
+	return b.String()
 }
 
 // ---- engine ----
@@ -1166,6 +1251,9 @@ func (C07) RunSeed(tier string, seed uint64, idx int) *core.Result {
 		}
 	case 4: // E: scaling
 		sc := &c07Scenario{Kind: "scaling", Shape: scalingShapes[r.Intn(len(scalingShapes))], N: r.Range(400, 900)}
+		if r.Chance(1, 4) {
+			sc.Shape = stringShapeNames[r.Intn(len(stringShapeNames))]
+		}
 		x.runScaling(sc)
 		if idx%40 == 4 {
 			res.Sample, _ = json.Marshal(sc)
@@ -1179,6 +1267,14 @@ func (C07) RunSeed(tier string, seed uint64, idx int) *core.Result {
 			fn := stringFuncs[r.Intn(len(stringFuncs))]
 			seeds := stringSeeds[fn]
 			in := mutateString(r, seeds[r.Intn(len(seeds))])
+			if fn != "AsDate" && fn != "AsMolecule" && fn != "AsTopology" && fn != "FeatureTable" {
+				switch r.Intn(6) {
+				case 0:
+					in = grammarNoise(r)
+				case 1: // a valid start with noise behind a separator
+					in = seeds[r.Intn(len(seeds))] + []string{"/", "@", ",", "..", ""}[r.Intn(5)] + grammarNoise(r)
+				}
+			}
 			sc := &c07Scenario{Kind: "string", Func: fn, Input: in}
 			core.Current, core.CurrentSig = sc, "string:"+fn
 			res.Evaluations++
